@@ -19,7 +19,7 @@ func checkC20(c *Ctx) {
 	c.R.NotCovered = "gotomic lock-free internals, logical races not expressible as lock discipline (e.g. a bucket found under the list lock and used after it was released), channel protocols, anything dynamic; the race detector is not run."
 	c.R.Assume("sync.Mutex / RWMutex semantics; callbacks passed to the tries run synchronously in the caller's critical section")
 	la := c.lockAnalysis()
-	ru1 := c.R.Rule("C20-R1", "every access to a guarded member of a monitor holds the monitor's lock (exclusively for writes), unless the object is still under construction or the function is a helper whose every call site holds it", "E5 lockset (forward must-hold dataflow) + requires-lock summaries over static callers", 10)
+	ru1 := c.R.Rule("C20-R1", "every access to a guarded member of a monitor holds the monitor's lock (exclusively for writes), unless the object is still under construction or the function is a helper whose every call site holds it", "E5 lockset (forward must-hold dataflow) + requires-lock summaries over static callers", 5)
 	guarded := []string{}
 	for _, m := range la.monitors {
 		names := make([]string, 0, len(m.fields))
@@ -74,7 +74,7 @@ func checkC20(c *Ctx) {
 	c.R.Extra["guarded_members"] = guarded
 
 	// R2
-	ru2 := c.R.Rule("C20-R2", "every Lock/RLock is released on every path to a return (directly or by a deferred unlock), and no function that acquires a monitor's lock on its receiver is called while the caller holds that same lock", "E5 lockset + path search", 20)
+	ru2 := c.R.Rule("C20-R2", "every Lock/RLock is released on every path to a return (directly or by a deferred unlock), and no function that acquires a monitor's lock on its receiver is called while the caller holds that same lock", "E5 lockset + path search", 8)
 	for _, f := range c.P.ModFuncs() {
 		fl := la.locks[f]
 		for _, b := range f.Blocks {
@@ -138,6 +138,9 @@ func checkC20(c *Ctx) {
 			}
 		}
 	}
+
+	c.ruleGoCapturesLoopVar("C20-R5")
+	c.ruleStoreWritesExclusive("C20-R6")
 
 	// R3
 	ru3 := c.R.Rule("C20-R3", "no check-then-act across a lock gap: when a function releases a monitor's lock and takes it again, a write to a guarded member in the later critical section is preceded, in that same section, by a fresh read of that member", "E5 critical-section structure", 1)
@@ -326,4 +329,128 @@ func (la *lockAnalysis) closureCreatedUnder(fn *ssa.Function, base, field string
 		return false, "the closure is created at " + c.whereI(mc) + " without the lock"
 	}
 	return true, ""
+}
+
+// ruleGoCapturesLoopVar: no goroutine started inside a loop captures a variable of that loop that lives across
+// iterations (with the module's go directive below 1.22 a range / for variable is one variable for the whole loop).
+func (c *Ctx) ruleGoCapturesLoopVar(id string) {
+	ru := c.R.Rule(id, "no goroutine started inside a loop captures a variable that the loop rewrites on its next iteration (module go directive < 1.22: one range variable for the whole loop): the goroutine would read another iteration's value — another session, another tenant's mount point", "E7 loop-alias on SSA: captured cell allocated outside the loop and stored inside it (positive control: go statements counted)", 1)
+	nGo, bad := 0, ""
+	var at ssa.Instruction
+	for _, f := range c.P.ModFuncs() {
+		loops := core.Loops(f)
+		for _, b := range f.Blocks {
+			for _, in := range b.Instrs {
+				g, ok := in.(*ssa.Go)
+				if !ok {
+					continue
+				}
+				nGo++
+				l := core.InnermostLoop(loops, b)
+				mc, isMC := g.Call.Value.(*ssa.MakeClosure)
+				if l == nil || !isMC {
+					continue
+				}
+				c.R.Fn(c.fname(f))
+				for _, bd := range mc.Bindings {
+					al, ok := bd.(*ssa.Alloc)
+					if !ok || l.Blocks[al.Block()] {
+						continue // a per-iteration variable (x := x, or go >= 1.22)
+					}
+					for _, st := range allStoresTo(al) {
+						if st.Parent() == f && l.Blocks[st.Block()] {
+							bad = fmt.Sprintf("the goroutine started at %s captures %s, which the enclosing loop overwrites on its next iteration (stored at %s)", c.whereI(g), al.Comment, c.whereI(st))
+							at = g
+						}
+					}
+				}
+			}
+		}
+	}
+	if at != nil {
+		ru.Fail("goroutines started in loops", c.whereI(at), bad)
+	} else {
+		ru.Check(nGo > 0, "goroutines started in loops", "-", fmt.Sprintf("%d go statement(s), none captures a loop-carried variable", nGo), "no go statement found in the module")
+	}
+}
+
+// ruleStoreWritesExclusive: the replicated stores are written only with their state's mutex held exclusively.
+func (c *Ctx) ruleStoreWritesExclusive(id string) {
+	ru := c.R.Rule(id, "every write to a replicated store (sessions map, subscription trie, retained trie) is made with the state's mutex held exclusively, in the routine itself or at every call site of the helper that makes it: look-up, comparison and overwrite of an entry form one critical section (under a read lock two merges of different generations of one entry can both pass the comparison, and the older one is written last)", "E5 lockset with exclusiveness, helpers judged at their call sites", 3)
+	ru0 := c.R.Rule(id+"-anchors", "anchors", "", 0)
+	d := c.dstate(ru0)
+	if d == nil {
+		return
+	}
+	la := c.lockAnalysis()
+	exclAt := func(in ssa.Instruction) bool {
+		fl := la.locks[in.Parent()]
+		if fl == nil {
+			return false
+		}
+		for _, h := range fl.before[in] {
+			if h.excl {
+				return true
+			}
+		}
+		return false
+	}
+	var heldByCallers func(f *ssa.Function, depth int, seen map[*ssa.Function]bool) (bool, string)
+	heldByCallers = func(f *ssa.Function, depth int, seen map[*ssa.Function]bool) (bool, string) {
+		if seen[f] {
+			return true, ""
+		}
+		seen[f] = true
+		if f.Parent() != nil {
+			// a closure (the trie update callback): judged where it is created
+			for _, mc := range c.P.ClosureSites(f) {
+				if exclAt(mc) {
+					continue
+				}
+				if ok, why := heldByCallers(mc.Parent(), depth, seen); !ok {
+					return false, why
+				}
+			}
+			return true, ""
+		}
+		sites := c.P.StaticCallers(f)
+		if len(sites) == 0 {
+			return false, c.fname(f) + " is entered without the lock"
+		}
+		for _, site := range sites {
+			if _, isGo := site.(*ssa.Go); isGo {
+				return false, "started as a goroutine at " + c.whereI(site)
+			}
+			if exclAt(site) {
+				continue
+			}
+			if depth == 0 {
+				return false, "called at " + c.whereI(site) + " without the exclusive lock"
+			}
+			if ok, why := heldByCallers(site.Parent(), depth-1, seen); !ok {
+				return false, why
+			}
+		}
+		return true, ""
+	}
+	for _, f := range c.P.ModFuncs() {
+		if f.Package() != d.pkg {
+			continue
+		}
+		for i, b := range f.Blocks {
+			for _, in := range b.Instrs {
+				if !d.isStoreWriteInstr(in) {
+					continue
+				}
+				c.R.Fn(c.fname(f))
+				key := fmt.Sprintf("store write in %s (block %d)", c.fname(f), i)
+				if exclAt(in) {
+					ru.OK(key, c.whereI(in), "under the exclusive lock")
+					continue
+				}
+				ok, why := heldByCallers(f, 3, map[*ssa.Function]bool{})
+				ru.Check(ok, key, c.whereI(in), "every call site of the helper holds the exclusive lock", "the replicated store is written without the state's mutex held exclusively ("+why+")")
+			}
+		}
+	}
 }
